@@ -624,7 +624,7 @@ class Check(PropertyCheck):
         "the engine's key table (BuildDBDelegate) is a bijection key <-> KeyID stable for the life of the BuildDB object (the model uses the key bytes as KeyID)",
         "not modelled (generator keeps away, see notes): a BuildDB object used again after open() failed on a lock (half-open state), and a connection left open on a file that another client version unlinks and recreates (orphaned inode)",
         "hand model of SQLiteBuildDB tied by extractor x_sqlitedb (DDL, SQL text, bind/column wiring, codec constants, version gate, brackets) and by differential correspondence of op histories",
-        "engine-level clause (restart-split = single-engine execution): proved on the engine model as part of C01/C04 (restart events in every history); here the real engine runs every generated history twice, in one engine and with a restart at every build boundary (stream restart-split)",
+        "engine-level clause (restart-split = single-engine execution): theorems about the concrete engine model (EngineImpl_sound_C03_restart_transparent: values and executed sets across one restart after histories whose completed builds succeeded; EngineImpl_sound_C03_restart_split_value: values with a restart before every build); the real engine runs every generated history in one engine, with a restart at every build boundary, and with a restart right after each failed build (stream restart-split); after a FAILED build the executed sets legitimately differ (known finding F55), and only there",
     ]
     trusted_base = ["extractor x_sqlitedb", "correspondence harness vc03 (db, affinity, merged) and its generators",
                     "python oracle Spec (independent restatement: durable map key -> result, version gate, one writer)"]
